@@ -147,6 +147,7 @@ struct ilu0 {
             L->ptr[i+1] = Lhead;
             U->ptr[i+1] = Uhead;
 
+            bool diag_reached = false;
             for(ptrdiff_t j = row_beg; j < row_end; ++j) {
                 ptrdiff_t c = A.col[j];
 
@@ -156,6 +157,7 @@ struct ilu0 {
                     precondition(!math::is_zero((*D)[i]), "Zero pivot in ILU");
 
                     (*D)[i] = math::inverse((*D)[i]);
+                    diag_reached = true;
                     break;
                 }
 
@@ -169,6 +171,10 @@ struct ilu0 {
                     if (w) *w -= tl * U->val[k];
                 }
             }
+
+            // A row whose stored columns are all below the diagonal never
+            // reaches the check above and would leave D[i] uninitialised.
+            precondition(diag_reached, "No diagonal value in system matrix");
 
             // Get rid of zeros in the factors
             Lhead = L->ptr[i];
